@@ -16,7 +16,8 @@ def run(ctx):
                     "extraction in OPT::parse), extracted as tables and evaluated for every version x every response code / every "
                     "TTL pattern against RFC 6891 6.1.3; R2 OPT::parse reads CLASS@+2 as the UDP payload size and TTL@+4; "
                     "R3/R4 structural: one OPT record is synthesised iff header.opt is Some and counted in ARCOUNT, and the parser "
-                    "lifts the OPT record out of the additional section.")
+                    "lifts the OPT record out of the additional section; R5 on every Ok return of OPT::parse the numeric domain "
+                    "entails cursor = end of the RDATA: the option loop leaves no trailing option unread.")
     rfc = {r[0]: int(r[1], 16) for r in load_tsv("edns.tsv")}
     consts = {k["name"]: int(k["v"]) for k in prog.consts.values()
               if k["crate"] == "simple_dns" and "rdata::opt::masks" in k["def"] and k["v"] is not None}
@@ -121,6 +122,23 @@ def run(ctx):
             viol(report, "C09-R3", wb.qname, "%s does not emit the OPT pseudo-record from header.opt_rr() exactly once" % wb.qname)
         else:
             report.nontriv("writer emits opt:" + wn)
+    # placement: the OPT record belongs to the additional section - after every authority record, in both writers
+    import c04
+    for wn in ("pkt_write", "pkt_writec"):
+        wb = B[wn]
+        order = c04.packet_emission_order(ctx, wb)
+        secs = [s.split(".")[-1] if s else None for fn, t, s in order]
+        opt_ix = [i for i, (fn, t, s) in enumerate(order) if t == "ResourceRecord" and s is None]
+        report.count()
+        if len(opt_ix) != 1 or "name_servers" not in secs:
+            viol(report, "C09-R3", wb.qname, "%s: cannot locate the OPT record among the emitted sections %s" % (wb.qname, secs))
+        elif any(sec in secs[opt_ix[0] + 1:] for sec in ("questions", "answers", "name_servers")):
+            viol(report, "C09-R3", wb.qname, "%s emits the OPT pseudo-record before the %s section (order: %s): a reader counts it as an "
+                 "authority record and the last authority record as additional" % (
+                     wb.qname, [x for x in secs[opt_ix[0] + 1:] if x in ("questions", "answers", "name_servers")][0],
+                     [x or "OPT" for x in secs[1:]]))
+        else:
+            report.nontriv("opt placement:" + wn)
     wh = B["write_header"]
     issome = mu.calls(wh, r"^std::option::Option::<T>::is_some$")
     frombool = mu.calls(wh, r"From<bool> for u16>::from$")
@@ -145,5 +163,15 @@ def run(ctx):
         else:
             report.nontriv("lift")
             report.sample({"rule": "R4", "holds_because": why})
+    # ---- R5: the option loop consumes the RDATA to its end
+    sm = ctx.whole.summaries.get(B["parse"].id) or {}
+    report.count()
+    if sm.get("ok_points") and sm.get("out_ge_len") and sm.get("out_le_len"):
+        report.nontriv("options consumed")
+        report.sample({"rule": "R5", "entailed": "at every Ok return of OPT::parse: *position == data.len()"})
+    else:
+        viol(report, "C09-R5", B["parse"].qname, "OPT::parse can return Ok with the cursor short of the end of the RDATA (summary %s): option "
+             "triples at the tail (e.g. a final option with an empty value, exactly 4 bytes) are dropped without an error" % (
+                 {k: sm.get(k) for k in ("ok_points", "out_le_len", "out_ge_len")},))
     report.assumptions += ["RCODE discriminants as exported by the compiler", "std calls in OPT::parse modelled by contract"]
     return report.finish()
